@@ -1306,7 +1306,8 @@ class Tr:
             # d[k]: KeyError when the key is absent
             k, tk = self.expr(sl)
             k = self.coerce(sl, k, tk, t[1])
-            return self.raising(e, '(match Dict.get? %s %s with | some v => pure v | none => throw PyErr.other)' % (c, k), t[2])
+            get = 'Dict.getPy?' if t[1] == 'Cell' else 'Dict.get?'      # cell keys: Python equality (1 == 1.0 == True)
+            return self.raising(e, '(match %s %s %s with | some v => pure v | none => throw PyErr.other)' % (get, c, k), t[2])
         if isinstance(t, tuple) and t[0] == 'Prod':
             if isinstance(sl, ast.Constant) and sl.value in (0, 1) and not isinstance(sl.value, bool):
                 return '%s.%d' % (c, sl.value + 1), t[sl.value + 1]
@@ -1633,7 +1634,8 @@ class Tr:
                 c, t = self.expr(e.args[0])
                 if not (isinstance(t, tuple) and t[0] == 'List' and isinstance(t[1], tuple) and t[1][0] == 'Prod'):
                     self.fail(e, 'dict of %s' % self.show(t))
-                return '(List.foldl (fun d p => Dict.set d p.1 p.2) [] %s)' % c, D(t[1][1], t[1][2])
+                setf = 'Dict.setPy' if t[1][1] == 'Cell' else 'Dict.set'
+                return '(List.foldl (fun d p => %s d p.1 p.2) [] %s)' % (setf, c), D(t[1][1], t[1][2])
             if n == 'tuple' and len(e.args) == 1:
                 self.need_builtin(e, 'tuple')
                 c, t = self.expr(e.args[0])
@@ -2441,8 +2443,8 @@ class Tr:
             k, tk = self.expr(tg.slice)
             self.no_alias(s.value)
             v, tv = self.expr(s.value)
-            self.emit(ind, '%s := Dict.set %s %s %s' % (name, name, self.coerce(tg, k, tk, t[1]),
-                                                        self.coerce(s, v, tv, t[2])))
+            self.emit(ind, '%s := %s %s %s %s' % (name, 'Dict.setPy' if t[1] == 'Cell' else 'Dict.set', name, self.coerce(tg, k, tk, t[1]),
+                                                     self.coerce(s, v, tv, t[2])))
             return
         self.fail(s, 'assignment target outside the table')
 
